@@ -22,7 +22,7 @@ Meta   == Data.meta
 Tr     == Traces[tid]
 
 AsciiPunct == (33..47) \cup (58..64) \cup (91..96) \cup (123..126)
-Blank(c) == c \in {32, 9, 10, 11, 12, 13, 160, 5760, 8232, 8233, 8239, 8287, 12288} \cup (8192..8202)
+Blank(c) == c \in {32, 9, 10, 11, 12, 13, 28, 29, 30, 31, 133, 160, 5760, 8232, 8233, 8239, 8287, 12288} \cup (8192..8202)
 (* code points an HTML character reference may denote *)
 RefOK(c) == /\ c >= 32 /\ ~(c >= 127 /\ c <= 159)
             /\ ~(c >= 55296 /\ c <= 57343) /\ ~(c >= 64976 /\ c <= 65007)
